@@ -1,4 +1,5 @@
-import Ezc3dVerif.Proofs.LoadWrite
+import Ezc3dVerif.Proofs.Layout
+import Ezc3dVerif.Proofs.LoadWriteDec
 /-
   C02 — loading a well-formed file yields exactly what the file encodes (the part that is proved).
 
@@ -9,10 +10,19 @@ import Ezc3dVerif.Proofs.LoadWrite
   next-record offset), `group_record_decoded`, `records_decoded` (the whole chain: groups in any id order
   with gaps between ids — the loader holds unnamed placeholders for the ids skipped — each followed by its
   parameters, terminated by a zero byte) and `data_decoded` (frames x (4 x points + channels x sub-frames)
-  floats, sub-frame major). These are stated for a parameter section in block 2 without leading zeros and
-  records in group-then-its-parameters order; the other declared vendor layouts (leading zeros, zeroed
-  prologue, section not in block 2, parameters before their group, shuffled records) rest on the
-  correspondence check with the independent Spec decoder as oracle.
+  floats, sub-frame major).
+
+  `load_layout` puts them together for the declared vendor layouts: ANY number of zero bytes before the
+  header, the parameter section in ANY block from 2 to 255, a plain or a ZEROED prologue, group and parameter
+  records in ANY order (a parameter before its group, ids with gaps, a repeated name), labels fewer or more
+  than the points in use (names come from `relabelFrame`), an EMPTY ANALOG group (hypothesis on
+  `updateHeaderH`, which reads it): the loaded object holds the header fields, the groups the records
+  describe (`applyRec` folded over them, in file order) and every point and analog sample bit for bit.
+  The example at the end is a file with 3 leading zeros, parameters in block 3, zeroed prologue, a parameter
+  record before its group record and a gap in the ids. Hypotheses: the field ranges of the format, a header
+  that agrees with the parameters (else `updateHeader` rewrites it: covered by the correspondence check), frames
+  of the announced shape. The independent Spec decoder (Spec/Format.lean) remains the oracle of the check; it
+  is not related to these theorems by a proof.
 -/
 namespace Ezc3d.C02
 open N
@@ -49,5 +59,72 @@ theorem data_decoded (np nsf nch : Nat) (pl al : List Bytes) (frames : List Fram
 /-- sparse group ids: a group whose id skips two numbers leaves two unnamed placeholders before it -/
 example (g : Group) (h : g.name ≠ []) : readBack [{}, {}, g] 0 [] = [{}, {}, g.normG] := by
   simp [readBack, h]
+
+/-- a parameter section anywhere in the file, plain or zeroed prologue, records in any order -/
+theorem records_any_order (hdr : Header) (s0 : InStream) (file pre pad : Bytes) (nb : Nat) (zp : Bool) (rs : List Rec)
+    (hpre : pre.length = 512 * (hdr.paramAddr - 1) + hdr.zeros) (hpa : 2 ≤ hdr.paramAddr) (hnb : nb < 256)
+    (hv : ∀ r ∈ rs, r.Valid) (hfile : OnFile s0 file)
+    (hfe : file = pre ++ ((if zp then 0 else low8N 1) :: (if zp then 0 else 0x50) :: low8N nb :: 84 :: (recsBytes rs ++ 0 :: pad)))
+    (hsmall : file.length + 2 < two31) :
+    ∃ s', readParameters s0 hdr = .ok (({ start := 1, checksum := 0x50, nbBlocks := nb, processor := 84 }, rs.foldl applyRec []), s') := by
+  obtain ⟨s', h, _⟩ := readParameters_layout hdr s0 file pre pad nb zp rs hpre hpa hnb hv hfile hfe hsmall
+  exact ⟨s', h⟩
+
+/-- the header behind any number of zero bytes, announcing any parameter block -/
+theorem header_any_offset (h : Header) (Z pa ds : Nat) (rest file : Bytes) (s0 : InStream) (hk : HdrOK h) (hds : ds < 65536)
+    (hpa1 : 1 ≤ pa) (hpa2 : pa < 256) (hfile : OnFile s0 file) (hfe : file = List.replicate Z 0 ++ h.bytesP pa ds rest) :
+    ∃ s', Header.read s0 = .ok (h.loadedAt Z pa ds, s') := ⟨_, Header_read_layout h Z pa ds rest file s0 hk hds hpa1 hpa2 hfile hfe⟩
+
+instance (r : Rec) : Decidable r.Valid := by cases r <;> (unfold Rec.Valid; infer_instance)
+
+/-- the hypotheses of `load_layout` as one decidable proposition -/
+def LayoutHyps (F : FloatOps) (h : Header) (Z pa ds nb : Nat) (gap pad : Bytes) (rs : List Rec) (frames : List Frame) (pl al : List Bytes) : Prop :=
+  HdrOK h ∧ ds < 65536 ∧ 2 ≤ pa ∧ pa < 256 ∧ 1 ≤ nb ∧ nb < 256 ∧ gap.length = 512 * (pa - 2) ∧ (∀ r ∈ rs, r.Valid) ∧
+  4 + (recsBytes rs).length + 1 + pad.length = 512 * nb ∧
+  Z + 512 + gap.length + 512 * nb + (writeData frames).length + 2 < two31 ∧
+  updateHeaderH F (rs.foldl applyRec []) [] (h.loadedAt Z pa ds) = .ok (h.loadedAt Z pa ds) ∧
+  h.nbFrames = frames.length ∧ frames.length ≤ 65536 ∧
+  (if h.nbPoints > 0 then strsOf (rs.foldl applyRec []) POINT LABELS else .ok []) = .ok pl ∧
+  (if h.nbAnalogs > 0 then strsOf (rs.foldl applyRec []) ANALOG LABELS else .ok []) = .ok al ∧
+  h.scale < 0 ∧ h.nbAnalogs < 65536 ∧ (∀ f ∈ frames, f.hasShape h.nbPoints h.nbAnalogByFrame h.nbAnalogs)
+
+instance (F : FloatOps) (h : Header) (Z pa ds nb : Nat) (gap pad : Bytes) (rs : List Rec) (frames : List Frame) (pl al : List Bytes) :
+    Decidable (LayoutHyps F h Z pa ds nb gap pad rs frames pl al) := by unfold LayoutHyps; infer_instance
+
+/-- A WELL-FORMED FILE OF ANY DECLARED LAYOUT LOADS TO WHAT IT ENCODES -/
+theorem load_layout (F : FloatOps) (h : Header) (Z pa ds nb : Nat) (zp : Bool) (gap pad : Bytes) (rs : List Rec) (frames : List Frame)
+    (pl al : List Bytes) (hy : LayoutHyps F h Z pa ds nb gap pad rs frames pl al) :
+    C3D.load F (List.replicate Z 0 ++ h.bytesP pa ds [] ++ gap ++ ((if zp then 0 else low8N 1) :: (if zp then 0 else 0x50) :: low8N nb :: 84 ::
+        (recsBytes rs ++ 0 :: pad)) ++ writeData frames)
+      = .ok { hdr := h.loadedAt Z pa ds, ph := { start := 1, checksum := 0x50, nbBlocks := nb, processor := 84 },
+              groups := rs.foldl applyRec [], frames := frames.map (relabelFrame pl al) } := by
+  obtain ⟨a1, a2, a3, a4, a5, a6, a7, a8, a9, a10, a11, a12, a13, a14, a15, a16, a17, a18⟩ := hy
+  exact Ezc3d.load_layout F h Z pa ds nb zp gap pad rs frames pl al a1 a2 a3 a4 a5 a6 a7 a8 a9 a10 a11 a12 a13 a14 a15 a16 a17 a18
+
+/-! ### a file of an unusual layout inside the domain (kernel-checked) -/
+
+def F1 : FloatOps := { rateKey := fun b => b.toNat, truncNat := fun b => b.toNat, ratioNat := fun a b => a.toNat / (b.toNat + 1) }
+
+def h1 : Header := { nbPoints := 2, firstFrame := 9, lastFrame := 9, rate := 0x42C80000, scale := -1 }
+
+/-- POINT has id 4 (ids 1-3 unused), its LABELS parameter comes BEFORE its group record, there is one label for two points,
+    ANALOG (id 2) is an empty group, a locked byte parameter closes the chain -/
+def rs1 : List Rec :=
+  [ .param 3 { name := LABELS, type := .char, dims := [3, 1], strs := [[76, 49]] },
+    .group 3 { name := POINT, desc := [112] },
+    .param 3 { name := USED, type := .int, dims := [1], ints := [2] },
+    .group 1 { name := ANALOG, locked := true },
+    .param 3 { name := RATE, type := .float, dims := [1], floats := [0x42C80000] },
+    .param 3 { name := FRAMES, type := .int, dims := [1], ints := [1] },
+    .param 3 { name := [98], locked := true, type := .byte, dims := [2], ints := [-1, 127], desc := [100, 100] } ]
+
+def frames1 : List Frame :=
+  [ { pts := [ { name := [76, 49], x := 0x3F800000, y := 0x80000000, z := 0x7F800001, r := 0 },
+               { name := [117, 110, 108, 97, 98, 101, 108, 101, 100, 95, 112, 111, 105, 110, 116, 95, 49], x := 1, y := 2, z := 3, r := 0xBF800000 } ], subs := [] } ]
+
+def pad1 : Bytes := List.replicate (512 - 4 - (recsBytes rs1).length - 1) 0
+
+set_option maxRecDepth 100000 in
+theorem layout_example : LayoutHyps F1 h1 3 3 5 1 (List.replicate 512 0) pad1 rs1 frames1 [[76, 49]] [] := by decide +kernel
 
 end Ezc3d.C02
